@@ -47,7 +47,11 @@ TRUSTED = ["Python's regex engine (module re: term_re.finditer, equation_re.sear
 ASSUMPTIONS = ['input strings are Latin-1 (code points 0..255)',
                "CPython's int() digit limit is the default sys.get_int_max_str_digits() = 4300 (ParseEq.int_max_str_digits; boundary cases 4300/4301 in the corpus)",
                'str.format fields with attribute / index / format-spec / conversion parts are outside the model (PUnmodelled; K skips them, 69 of the 837 930 strings up to length 4)',
-               'the oracle chk stands for compile(): theorems hold for every chk; "never executes model code" is observed on the real code by canary builtins and environment snapshots',
+               'the oracle chk stands for compile(): theorems hold for every chk; side-effect freedom has two halves: in the MODEL the only call out is '
+               'chk, and only on generated code strings of the statements (C13_oracle_sees_only_generated_codes, C13_nocheck_ignores_oracle) — '
+               'a pure function cannot execute or write anything else; on the REAL code "never executes model code / no effect outside the result" '
+               'is observed by canary builtins (every name a script can call is a counting stub), snapshots of sys.modules / cwd / builtins / environ / '
+               'warnings filters / parser globals, and the state-between-calls clause (re-parse after the caller emptied earlier results)',
                'build_model / instantiation are observed on the real code only (not modelled here)']
 EXHAUSTIVE = {'quick': True, 'thorough': True}
 CASE_TIMEOUT = 90
@@ -509,6 +513,8 @@ CORPUS = [
     'Y = f(X) + {f}', 'Y = {f} + f(X)', 'Y = scale(X)\nZ = {scale} * Y', 'Z = {scale} * X\nY = scale(Z)', 'Y = {a} + <a>', 'Y = <a>\nZ = {a}', 'Y = f(X) + <f>', 'Y = f(X)\nf = 1',
     '```\n a=1\n```', '```\n a=1\nb=2\n```', '```\n\ta=1\n```', '` a = 1`', '{p} = X', '<e> = X + 1', 'f(2) = X', '`a` = X', 'Y = C + G\n{a} = Y * 2\nC = {a} * Y[-1]',
     '```\nif self.k:\n\\\n    pass\n```',                 # NEW: a backslash continuation line in a fenced block breaks when build_model indents the code
+    '```\nx\n```)', '(```\n```)', '```(\nx\n```', '```\nx\n`````', '`````\nx\n```', 'Y = (\n```\n```\n)', 'Y = (X\n```\n```\n)', '```\n```', '``\nx = 1\n``', '```\nx = 1\n ```', ' ```\nx = 1\n```',
+    '```\n(\n```\nY = X)', '```\nx``` \n```', '```\nx = 1\n```  # c', '```  # c\nx = 1\n```', '```#\nx = 1\n```',       # boundary cases of fences_clean / FI
     'status = 1', 'Y = lags', 'Y = {check}', '`x = 1; from os import *`',                          # NEW: accepted but cannot be built / instantiated
     'Y = ' + '+'.join(['X'] * 3000), 'Y = ' + '-' * 6000 + 'X',                                   # NEW: RecursionError / MemoryError from compile()
     'Y = ' + '(' * 250 + 'X' + ')' * 250, 'Y = X[' + '1' * 5000 + ']',
